@@ -272,16 +272,17 @@ theorem match_sound {ops : List OpQ} {P : M3} {gens : Array Gen} {eps : Rat} {p 
   obtain ⟨o, ho, hr, hw⟩ := hg g hgm
   exact ⟨o, ho, conj_of_adj_det_one hP hr, hw⟩
 
-theorem tryHall_ok {ops : List OpQ} {setting : SettingQ} {eps : Rat} {pg : PointGroup} {hi : Int}
+/-- A successful iteration of the Hall-number loop: the answer carries the iterated Hall number, the
+tabulated space-group number, a matrix of determinant one, and the origin shift that
+`match_origin_shift` found for this matrix and the tabulated primitive generators. -/
+theorem tryHall_match {ops : List OpQ} {setting : SettingQ} {eps : Rat} {pg : PointGroup} {hi : Int}
     {sg : SpaceGroup} (hpg : pg.primTransMat.det = 1)
     (h : tryHall ops setting eps pg hi = some (.ok sg)) :
     (sg.hall : Int) = hi ∧
     (∃ e, hallEntry? sg.hall = some e ∧ sg.number = e.number) ∧
     sg.linear.det = 1 ∧
     ∃ gens, hallPrimGens? sg.hall = some gens ∧
-      ∃ s : Q3, sg.shift = (sg.linear.applyQ s).map ratTruncFrac ∧
-        ∀ g ∈ gens, ∃ o ∈ ops, sg.linear.mul g.rot = o.rot.mul sg.linear ∧
-          Within (residual g (sg.linear.adj.applyQ o.trans) s) eps := by
+      matchOriginShift ops sg.linear gens.toArray eps = some sg.shift := by
   unfold tryHall at h
   split at h
   · simp at h
@@ -311,9 +312,7 @@ theorem tryHall_ok {ops : List OpQ} {setting : SettingQ} {eps : Rat} {pg : Point
                 simpa using this
               · simp at hcm
             have hPd : (pg.primTransMat.mul corr).det = 1 := by rw [M3.det_mul, hpg, hcd]; rfl
-            refine ⟨hnat, ⟨entry, hentry, rfl⟩, hPd, gensL, hgens, ?_⟩
-            obtain ⟨s, hs, hg⟩ := match_sound hPd hp'
-            exact ⟨s, hs, fun g hgm => hg g (by simpa using hgm)⟩
+            exact ⟨hnat, ⟨entry, hentry, rfl⟩, hPd, gensL, hgens, hp'⟩
           · -- fallback for a requested Hall number
             split at h
             · split at h
@@ -327,10 +326,29 @@ theorem tryHall_ok {ops : List OpQ} {setting : SettingQ} {eps : Rat} {pg : Point
                   obtain ⟨P', hPd, hP'⟩ := unimodularFirst_some _ _ _ hb
                   simp only [Option.map_eq_some_iff, Prod.mk.injEq] at hP'
                   obtain ⟨p', hp', rfl, rfl⟩ := hP'
-                  refine ⟨hnat, ⟨entry, hentry, rfl⟩, hPd, gensL, hgens, ?_⟩
-                  obtain ⟨s, hs, hg⟩ := match_sound hPd hp'
-                  exact ⟨s, hs, fun g hgm => hg g (by simpa using hgm)⟩
+                  exact ⟨hnat, ⟨entry, hentry, rfl⟩, hPd, gensL, hgens, hp'⟩
               · simp at h
             · simp at h
+
+/-- Reading of a successful `identify`. -/
+theorem identify_match {ops : List OpQ} {setting : SettingQ} {eps : Rat} {sg : SpaceGroup}
+    (h : identify ops setting eps = .ok sg) :
+    (sg.hall : Int) ∈ settingHallNumbers setting ∧
+    (∃ e, hallEntry? sg.hall = some e ∧ sg.number = e.number) ∧
+    sg.linear.det = 1 ∧
+    ∃ gens, hallPrimGens? sg.hall = some gens ∧
+      matchOriginShift ops sg.linear gens.toArray eps = some sg.shift := by
+  unfold identify identifyFrom at h
+  split at h
+  · simp at h
+  · rename_i pg hpg
+    have hdet := pointGroupNew_det hpg
+    split at h
+    · rename_i r hr
+      subst h
+      obtain ⟨hi, hmem, hi2⟩ := List.exists_of_findSome?_eq_some hr
+      obtain ⟨hh, he, hd, hg⟩ := tryHall_match hdet hi2
+      exact ⟨by rw [hh]; exact hmem, he, hd, hg⟩
+    · simp at h
 
 end Moyo.S5
